@@ -7,13 +7,13 @@ from fractions import Fraction
 import z3
 from . import terms as T
 
-_EXP = T.uf("exp", "real", "real")
-_LOG = T.uf("log", "real", "real")
-_LOG10 = T.uf("log10", "real", "real")
-_SQRT = T.uf("sqrt", "real", "real")
-_SIN = T.uf("sin", "real", "real")
-_COS = T.uf("cos", "real", "real")
-_POW = T.uf("pow", "real", "real", "real")
+_EXP = T.uf("r_exp", "real", "real")
+_LOG = T.uf("r_log", "real", "real")
+_LOG10 = T.uf("r_log10", "real", "real")
+_SQRT = T.uf("r_sqrt", "real", "real")
+_SIN = T.uf("r_sin", "real", "real")
+_COS = T.uf("r_cos", "real", "real")
+_POW = T.uf("r_pow", "real", "real", "real")
 PI = z3.Real("pi")
 
 
@@ -40,7 +40,7 @@ def m_exp(cx, x):
     if z3.is_rational_value(x) and x.numerator_as_long() == 0:
         cx.fact(y == 1, "math:exp(0)=1")
     # exp(log t) = t  when the argument is syntactically a log
-    if z3.is_app(x) and x.decl().name() == "log" and x.num_args() == 1:
+    if z3.is_app(x) and x.decl().name() == "r_log" and x.num_args() == 1:
         a = x.arg(0)
         cx.fact(z3.Implies(a > 0, y == a), "math:exp(log)")
     return y
@@ -53,7 +53,7 @@ def m_log(cx, x):
     cx.fact(z3.And(z3.Implies(x >= 1, y >= 0), z3.Implies(z3.And(x > 0, x <= 1), y <= 0)), "math:log monotone around 1")
     if z3.is_rational_value(x) and x.numerator_as_long() == x.denominator_as_long():
         cx.fact(y == 0, "math:log(1)=0")
-    if z3.is_app(x) and x.decl().name() == "exp" and x.num_args() == 1:
+    if z3.is_app(x) and x.decl().name() == "r_exp" and x.num_args() == 1:
         cx.fact(y == x.arg(0), "math:log(exp)")
     return y
 
